@@ -866,3 +866,19 @@ func (c *FuncCFG) loopEarlyExit(loop ast.Stmt) []string {
 	}
 	return nil
 }
+
+// callsReaching returns the calls in fn to target or, when there are none, the calls in
+// fn to package-local functions that call target themselves (a step moved into a helper).
+func callsReaching(p *Prog, fn *FuncNode, target *FuncNode) []*ast.CallExpr {
+	if direct := CallsIn(fn, calleeIs(target)); len(direct) > 0 {
+		return direct
+	}
+	return CallsIn(fn, func(o types.Object, _ *ast.CallExpr) bool {
+		f, ok := o.(*types.Func)
+		if !ok {
+			return false
+		}
+		h := p.ByObj[f.Origin()]
+		return h != nil && h.Body != nil && h.Pkg == fn.Pkg && h != target && len(CallsIn(h, calleeIs(target))) > 0
+	})
+}
